@@ -118,3 +118,62 @@ pub proof fn lemma_fold_side_prefix(swaps: Seq<Transaction>, d: Denom, mapped: S
 {
     if k > 0 { lemma_fold_side_prefix(swaps, d, mapped, accs, n, k - 1); assert(accs[(k - 1) + 1] as int == sat128(accs[k - 1] + mapped[k - 1].0)); }
 }
+
+// ---- pool keys mentioned by a request list (extract_pool_keys_sorted / transactions_for_pool)
+pub open spec fn mentions(txs: Seq<Transaction>, k: PoolKey) -> bool { exists|i: int| 0 <= i < txs.len() && spec_req_key((#[trigger] txs[i]).data@) == Some(k) }
+/// dedup of a sorted sequence: same elements, still sorted, no duplicates
+pub proof fn lemma_dedup_sorted(s: Seq<PoolKey>)
+    requires pk_sorted(s)
+    ensures pk_sorted(dedup_seq(s)), dedup_seq(s).no_duplicates(), forall|k: PoolKey| #[trigger] dedup_seq(s).contains(k) <==> s.contains(k),
+            s.len() > 0 ==> dedup_seq(s).len() > 0 && dedup_seq(s).last() == s.last()
+    decreases s.len()
+{
+    broadcast use axiom_pk_le_antisym;
+    if s.len() > 1 {
+        let t = s.drop_last(); let l = s[s.len() - 1];
+        assert(pk_sorted(t)) by { assert forall|i: int, j: int| 0 <= i <= j < t.len() implies pk_le(#[trigger] t[i], #[trigger] t[j]) by { assert(t[i] == s[i] && t[j] == s[j]); } }
+        lemma_dedup_sorted(t);
+        let d = dedup_seq(t);
+        assert(t.last() == s[s.len() - 2]);
+        assert forall|k: PoolKey| #[trigger] dedup_seq(s).contains(k) <==> s.contains(k) by {
+            if s.contains(k) { let i = choose|i: int| 0 <= i < s.len() && s[i] == k; if i < s.len() - 1 { assert(t[i] == k); assert(t.contains(k)); } }
+            if t.contains(k) { let i = choose|i: int| 0 <= i < t.len() && t[i] == k; assert(s[i] == k); }
+            if l == s[s.len() - 2] { assert(t.contains(l)); } else {
+                if d.push(l).contains(k) { let i = choose|i: int| 0 <= i < d.push(l).len() && d.push(l)[i] == k; if i < d.len() { assert(d[i] == k); assert(d.contains(k)); } else { assert(s[s.len() - 1] == k); } }
+                if d.contains(k) { let i = choose|i: int| 0 <= i < d.len() && d[i] == k; assert(d.push(l)[i] == k); }
+                assert(d.push(l)[d.len() as int] == l);
+            }
+        }
+        if l != s[s.len() - 2] {
+            let e = d.push(l);
+            assert forall|i: int, j: int| 0 <= i <= j < e.len() implies pk_le(#[trigger] e[i], #[trigger] e[j]) by {
+                if j == d.len() { if i < d.len() { assert(d.contains(d[i])); assert(t.contains(d[i])); let q = choose|q: int| 0 <= q < t.len() && t[q] == d[i]; assert(pk_le(s[q], s[s.len() - 1])); } else { assert(pk_le(s[s.len() - 1], s[s.len() - 1])); } }
+            }
+            assert forall|i: int, j: int| 0 <= i < e.len() && 0 <= j < e.len() && i != j implies e[i] != e[j] by {
+                if i == d.len() || j == d.len() {
+                    let o = if i == d.len() { j } else { i };
+                    // d[o] <= t.last() <= l and d[o] == l would give t.last() == l by antisymmetry
+                    if d[o] == l { assert(d.contains(d[o])); assert(t.contains(l)); let q = choose|q: int| 0 <= q < t.len() && t[q] == l;
+                        assert(pk_le(s[q], s[s.len() - 2])); assert(pk_le(s[s.len() - 2], s[s.len() - 1])); }
+                }
+            }
+        }
+    } else if s.len() == 1 { assert(s.contains(s[0])); }
+}
+/// filtering a sequence of references, then dereferencing, is filtering the referents
+pub proof fn lemma_filter_refs<T>(items: Seq<&T>, txs: Seq<T>, b: spec_fn(&T) -> bool, p: spec_fn(T) -> bool)
+    requires refs_of(items, txs), forall|i: int| 0 <= i < items.len() ==> b(#[trigger] items[i]) == p(txs[i])
+    ensures refs_of(items.filter(b), txs.filter(p))
+    decreases items.len()
+{
+    reveal_with_fuel(Seq::filter, 2);
+    if items.len() > 0 {
+        let it = items.drop_last(); let tt = txs.drop_last();
+        assert(refs_of(it, tt)) by { assert forall|q: int| 0 <= q < tt.len() implies *(#[trigger] it[q]) == tt[q] by { assert(it[q] == items[q]); } }
+        assert forall|i: int| 0 <= i < it.len() implies b(#[trigger] it[i]) == p(tt[i]) by { assert(it[i] == items[i]); }
+        lemma_filter_refs(it, tt, b, p);
+        assert(b(items[items.len() - 1]) == p(txs[txs.len() - 1]));
+        assert(*items[items.len() - 1] == txs[txs.len() - 1]);
+    }
+}
+pub open spec fn for_pool(k: PoolKey) -> spec_fn(Transaction) -> bool { |tx: Transaction| spec_req_key(tx.data@) == Some(k) }
